@@ -24,7 +24,7 @@ REL_TRIGGERS = [-900, 3600, -86400, 2 * 86400, 0, -36 * 3600, 7200, 86400, -1]
 ABS_TRIGGERS = [("u", 2020, 3, 29, 0, 30, 0), ("n", 2020, 3, 28, 9, 0, 0), ("z", "Europe/Berlin", 2020, 3, 28, 23, 0, 0)]
 RELATED = [None, None, "START", "END", "start", "end", "End", "x"]
 REPEATS = [None, None, 0, 1, 2, 5, -1]
-DURATIONS = [None, 0, 300, 86400, 43200, 3600]
+DURATIONS = [None, 0, 300, 86400, 43200, 3600, -900]      # a signed DURATION is accepted by the parser: repetitions then run backwards
 
 
 def end_variants(start):
@@ -98,7 +98,7 @@ def gen_cases(ctx):
     for _ in range(n):
         st = rng.choice(STARTS)
         en, du = rng.choice(end_variants(st))
-        als = [gen_alarm(rng) for _ in range(rng.choice([0, 1, 1, 2, 2, 3, 4]))]
+        als = relate_alarms(rng, [gen_alarm(rng) for _ in range(rng.choice([0, 1, 1, 2, 2, 3, 4]))])
         out.append(("random", (rng.randrange(2), st, en, du, als)))
     return out
 
@@ -143,6 +143,10 @@ def build_api(case, provider, variant):
                 al.add("DURATION", S.mk_dt(("td", a["duration"]), provider))
             else:
                 al.DURATION = S.mk_dt(("td", a["duration"]), provider)
+        for ln in a.get("extra", []):
+            nm, val = ln.split(":", 1)
+            nm, *ps = nm.split(";")
+            al.add(nm, val, parameters=dict(x.split("=", 1) for x in ps) or None)
         comp.add_component(al)
     return comp
 
@@ -178,9 +182,26 @@ def text_of(case):
             lines.append(f"REPEAT:{a['repeat']}")
         if a["duration"] is not None:
             lines.append("DURATION:" + S.ical_td(a["duration"]))
+        lines += a.get("extra", [])
         lines.append("END:VALARM")
     lines.append(f"END:{cname}")
     return "\r\n".join(lines) + "\r\n"
+
+
+def relate_alarms(rng, als):
+    """RFC 9074 bookkeeping properties on sibling alarms (UID, RELATED-TO;RELTYPE=SNOOZE / other relation types, PROXIMITY):
+    none of them takes part in the computation of alarm times"""
+    if rng.random() < 0.45:
+        for i, a in enumerate(als):
+            a.setdefault("extra", [])
+            if rng.random() < 0.7:
+                a["extra"].append("UID:alarm-%d" % i)
+        for i, a in enumerate(als):
+            if i and rng.random() < 0.6:
+                a["extra"].append("RELATED-TO;RELTYPE=%s:alarm-%d" % (rng.choice(["SNOOZE", "SNOOZE", "SIBLING", "PARENT"]), rng.randrange(i)))
+            if rng.random() < 0.2:
+                a["extra"].append("PROXIMITY:ARRIVE")
+    return als
 
 
 def parseable(case):
